@@ -9,18 +9,19 @@ import (
 )
 
 // Value is a symbolic value of an SSA register.
-//   Term        scalars: bool, ints, strings, refs (pointers to whole objects, maps, chans, funcs), Slice, Iface
-//   PtrVal      interior pointer (address of a field, element or cell)
-//   *StructVal  struct value
-//   TupleVal    multiple results
-//   *ClosureVal closure or function value known statically
-//   *IterVal    range iterator over a map or a string
+//
+//	Term        scalars: bool, ints, strings, refs (pointers to whole objects, maps, chans, funcs), Slice, Iface
+//	PtrVal      interior pointer (address of a field, element or cell)
+//	*StructVal  struct value
+//	TupleVal    multiple results
+//	*ClosureVal closure or function value known statically
+//	*IterVal    range iterator over a map or a string
 type Value interface{}
 
 type PtrVal struct {
-	Base Term   // Ref
-	Path string // heap name prefix ("" = whole object of type T at Base)
-	Idx  *Term  // index inside an indexed heap (slice/array element)
+	Base Term       // Ref
+	Path string     // heap name prefix ("" = whole object of type T at Base)
+	Idx  *Term      // index inside an indexed heap (slice/array element)
 	T    types.Type // type of the pointee
 }
 
